@@ -676,7 +676,9 @@ func (d *DNSFilter) enableFiltersLocked(async bool) {
 // ApplyAdditionalFiltering enhances the provided filtering settings with
 // blocked services and client-specific configurations.
 func (d *DNSFilter) ApplyAdditionalFiltering(cliAddr netip.Addr, clientID string, setts *Settings) {
-	setts.ClientIP = cliAddr
+	// The rules name clients by plain addresses and networks, which never
+	// contain an address with a zone or in the IPv4-mapped form.
+	setts.ClientIP = cliAddr.Unmap().WithZone("")
 
 	d.ApplyBlockedServices(setts)
 	d.applyClientFiltering(clientID, cliAddr, setts)
